@@ -15,7 +15,6 @@ def run(ctx):
     summ = tc.optional_part(ctx, "progcheck", "run_mode", "backend", 150 if ctx.quick() else 3000)
     if summ is not None:
         ctx.cov["program_level"] = summ
-    tc.optional_part(ctx, "scalar", "run_part", "C08")
     ctx.cov["programs"] = len(cases) + len(cases2)
     ctx.cov["disagreements_checked"] = len(bad) + len(bad2)
     ctx.cov["rule"] = ("programs = single Device entry-point calls (forward, backward, in-place, argmax/argmin) with exact integer data executed on devices::Eigen and on devices::Naive and "
